@@ -3,6 +3,8 @@
 package client
 
 import (
+	"errors"
+
 	"github.com/aws/aws-sdk-go-v2/aws"
 	"github.com/aws/aws-sdk-go-v2/service/dynamodb"
 	"github.com/aws/aws-sdk-go-v2/service/dynamodb/types"
@@ -210,6 +212,8 @@ func VerifC11Atomic() {
 	nd.Reach("end")
 }
 
+var errRefusedInBatch = errors.New("refused inside the batch")
+
 // VerifC11Aborted: a call that aborts - the library reports malformed read expressions with a panic, which
 // the caller may recover from - releases the client: the next call on the same client completes (no
 // deadlock) and sees an intact table.
@@ -263,6 +267,39 @@ func VerifC11Aborted() {
 		},
 		func() error {
 			_, e := c.Query(vCtx, &dynamodb.QueryInput{TableName: tbl, IndexName: aws.String("nosuch"), KeyConditionExpression: aws.String("p = :p"), ExpressionAttributeValues: vItem{":p": vS("k")}})
+			return e
+		},
+		// refused management calls and helpers (early returns)
+		func() error { return ClearTable(c, "nosuch") },
+		func() error { return AddIndex(vCtx, c, "nosuch", "late", "g", "") },
+		func() error { return AddTable(vCtx, c, vTbl, "p", "") },
+		func() error {
+			_, e := c.DeleteTable(vCtx, &dynamodb.DeleteTableInput{TableName: aws.String("nosuch")})
+			return e
+		},
+		func() error {
+			_, e := c.DescribeTable(vCtx, &dynamodb.DescribeTableInput{TableName: aws.String("nosuch")})
+			return e
+		},
+		func() error {
+			_, e := c.UpdateTable(vCtx, &dynamodb.UpdateTableInput{TableName: tbl, GlobalSecondaryIndexUpdates: []types.GlobalSecondaryIndexUpdate{{Delete: &types.DeleteGlobalSecondaryIndexAction{IndexName: aws.String("nosuch")}}}})
+			return e
+		},
+		func() error {
+			_, e := c.Scan(vCtx, &dynamodb.ScanInput{TableName: aws.String("nosuch")})
+			return e
+		},
+		func() error {
+			_, e := c.BatchGetItem(vCtx, &dynamodb.BatchGetItemInput{RequestItems: map[string]types.KeysAndAttributes{vTbl: {Keys: []vItem{{"p": vN("1")}}}}})
+			if e == nil {
+				e = errRefusedInBatch // a batch reports a bad key per key, not as an error of the call
+			}
+			return e
+		},
+		func() error {
+			EmulateFailure(c, FailureConditionInternalServerError)
+			_, e := c.Scan(vCtx, &dynamodb.ScanInput{TableName: tbl})
+			EmulateFailure(c, FailureConditionNone)
 			return e
 		},
 	}
